@@ -136,7 +136,7 @@ class Geo:
         self.kind = desc['kind']
         self.st = desc['kind'] + ('-conicbase' if desc['kind'] == 'q2d' and desc.get('k', 0.0) != 0 else '')
         self.typ = sd['typ']
-        self.nprime = float(sd.get('n', 1.0))
+        self.nprime = float(sd['n']) if sd.get('n') is not None else 1.0     # only meaningful for typ == 'refr'
         self.Pv = ref_Pvec(sd['P'])
         self.Rm = ref_rotmat(sd.get('R'))
         self.tilt = sd.get('R') is not None
@@ -148,11 +148,12 @@ class Geo:
             self.nr = float(desc['nr'])
 
     # -- the real object ----------------------------------------------------------------------
-    def build(self, R):
+    def build(self, R, P_arg=None):
+        """Construct the real Surface; P_arg overrides the form in which the position is handed over."""
         d = self.desc
-        typ, P, Rz = self.typ, self.sd['P'], self.sd.get('R')
-        npr = self.nprime
-        n = (lambda wvl: npr)
+        typ, P, Rz = self.typ, (self.sd['P'] if P_arg is None else P_arg), self.sd.get('R')
+        npr = self.sd.get('n', 1.0)
+        n = None if npr is None else (lambda wvl, npr=float(npr): npr)     # None: surface carries no index function
         k = self.kind
         if k == 'plane':
             return R.call(rs.Surface.plane, typ, P, n=n, R=Rz)
@@ -242,8 +243,10 @@ class Geo:
             if not live.any():
                 continue
             idx = np.nonzero(live)[0]
-            sj = s[idx]
-            pj, dj = p[idx], d[idx]
+            sb = s[idx]
+            dj = d[idx]
+            pj = p[idx] + sb[:, None] * dj          # re-origin at the base-conic intersection: distant origins stay well conditioned
+            sj = np.zeros_like(sb)
             F = np.full(sj.shape, np.nan)
             for _ in range(12):
                 q = pj + sj[:, None] * dj
@@ -255,7 +258,7 @@ class Geo:
             q = pj + sj[:, None] * dj
             with np.errstate(all='ignore'):
                 F = q[:, 2] - self.sag(q[:, 0], q[:, 1])
-            sj = np.where(np.abs(F) <= 1e-12, sj, np.nan)
+            sj = np.where(np.abs(F) <= 1e-12, sb + sj, np.nan)
             out[idx, j] = sj
         return out, D
 
@@ -376,16 +379,19 @@ def judge_hop(R, g, n0, Pin, Sin, Pout, Sout, live, hop, tally):
     if not j.any():
         return j
     qs = np.where(j[:, None], q, 0.0)
+    # the height above the surface is resolved at the scale of the local hit point, however far away the ray started;
+    # the lateral position / ray parameter carry the rounding of the origin (ulp(|P0|))
     scale = 1.0 + np.abs(p).max(axis=1) + np.abs(qs).max(axis=1)
     tolp = TOL_P * np.maximum(1.0, scale / 100.0)
+    tols = TOL_P * np.maximum(1.0, (1.0 + np.abs(qs).max(axis=1)) / 100.0)
     with np.errstate(all='ignore'):
-        e_surf = np.abs(qs[:, 2] - g.sag(qs[:, 0], qs[:, 1])) / tolp
+        e_surf = np.abs(qs[:, 2] - g.sag(qs[:, 0], qs[:, 1])) / tols
         s_impl = np.einsum('ij,ij->i', qs - p, d)
         e_line = np.linalg.norm(qs - p - s_impl[:, None] * d, axis=1) / tolp
         dr = np.abs(roots - s_impl[:, None])
         dr = np.where(np.isfinite(dr), dr, np.inf)
         which = np.argmin(dr, axis=1)
-        e_root = dr[np.arange(N), which]
+        e_root = dr[np.arange(N), which] / np.maximum(1.0, scale / 100.0)
         s_ref = roots[np.arange(N), which]
     good = j.copy()
     for err, tol, sig, what in ((e_surf, 1.0, f'onsurf:{st}', 'traced point is not on the surface: |z - sag(x,y)|/tol'),
@@ -402,10 +408,10 @@ def judge_hop(R, g, n0, Pin, Sin, Pout, Sout, live, hop, tally):
     tally['path<-128'] += int((path < -128).sum())
     tally['path>+128'] += int((path > 128).sum())
     # --- direction ------------------------------------------------------------------------------
-    s_ref = np.where(np.isfinite(s_ref), s_ref, 0.0)
-    qr = p + s_ref[:, None] * d
+    # the reference normal is taken at the traced point (just validated to lie on the surface and on the ray); the reference
+    # intersection itself carries ulp(|P0|) of lateral rounding for distant origins
     with np.errstate(all='ignore'):
-        nh = g.normal(qr[:, 0], qr[:, 1])
+        nh = g.normal(qs[:, 0], qs[:, 1])
     nh = np.where(np.isfinite(nh), nh, 0.0)
     cosI = np.einsum('ij,ij->i', d, nh)
     told = TOL_DQ if g.isq else TOL_D
@@ -422,13 +428,13 @@ def judge_hop(R, g, n0, Pin, Sin, Pout, Sout, live, hop, tally):
         told = told / np.sqrt(np.maximum(rad, 1e-6))       # conditioning of S' near the critical angle
     else:
         j2 = j
-        want = d - 2 * cosI[:, None] * nh
+        want = d - 2 * cosI[:, None] * nh if g.typ == 'refl' else d      # 'eval' surfaces do not bend rays
         back = np.zeros(N, bool)
         told = told * np.ones(N)
     good &= j2
     if not j2.any():
         return good
-    kind = 'refract' if refr else 'reflect'
+    kind = 'refract' if refr else ('reflect' if g.typ == 'refl' else 'eval')
     sfin = np.isfinite(so).all(axis=1)
     m = j2 & ~sfin
     if m.any():
@@ -452,7 +458,8 @@ def judge_hop(R, g, n0, Pin, Sin, Pout, Sout, live, hop, tally):
     if not refr:
         ok, i = worst(e_vec, j3, 1.0)
         stat('reflect' + (':' + g.st if g.isq else ''), e_vec, j3)
-        R.expect(ok, f'reflect:law:{st}', f'S\' != S - 2 (S.n) n with the true unit normal: max|err|/tol = {e_vec[i]:.3e} '
+        R.expect(ok, f'reflect:law:{st}' if g.typ == 'refl' else f'eval:direction:{st}',
+                 ('S\' != S - 2 (S.n) n with the true unit normal' if g.typ == 'refl' else 'an eval surface changed the direction') + f': max|err|/tol = {e_vec[i]:.3e} '
                                           f'(want local {want[i].tolist()} got local {sos[i].tolist()}); ' + ray(i))
         good &= e_vec <= 1.0
         return good
@@ -498,11 +505,11 @@ def check_surface_object(R, g, surf):
     return bool(ok)
 
 
-def trace_and_judge(R, geos, P0, S0, n_ambient, tally, form='batch'):
-    """raytrace the prescription and judge every hop.  P0, S0: (N,3)."""
+def trace_and_judge(R, geos, P0, S0, n_ambient, tally, form='batch', prebuilt=None):
+    """raytrace the prescription and judge every hop.  P0, S0: (N,3).  prebuilt: Surfaces constructed by the caller."""
     surfs = []
-    for g in geos:
-        s = g.build(R)
+    for i, g in enumerate(geos):
+        s = g.build(R) if prebuilt is None else prebuilt[i]
         if not check_surface_object(R, g, s):
             return None
         surfs.append(s)
@@ -915,6 +922,131 @@ def long_cases(tier):
     return out
 
 
+# -- far ray origins ---------------------------------------------------------------------------------
+
+def run_far(case, seed, R):
+    """The 5x5 lattice (incl. the axis) x four directions, launched |Z0| before (zdir=+1) / after (zdir=-1) the z=0 plane."""
+    g = Geo(case['surf'], seed)
+    L, S0 = bundle('quick')
+    S0 = S0 * np.array([1.0, 1.0, float(case['zdir'])])
+    P0 = L - (case['Z0'] / np.abs(S0[:, 2:3])) * S0          # every ray passes through its lattice point in the plane z=0
+    tally = new_tally()
+    trace_and_judge(R, [g], P0, S0, case['n0'], tally, form='batch')
+    report_tally(R, tally)
+    R.outcome(f'Z0={case["Z0"]:g}')
+
+
+def far_cases(tier):
+    shp = [{'kind': 'plane'}, {'kind': 'sphere', 'c': 1 / 50}, {'kind': 'sphere', 'c': -1 / 50}, {'kind': 'conic', 'c': 1 / 50, 'k': -1.0},
+           {'kind': 'conic', 'c': -1 / 50, 'k': -0.6}, {'kind': 'oac', 'c': 1 / 50, 'k': -1.0, 'dx': 20.0, 'dy': 0.0},
+           {'kind': 'q2d', 'q': '2d', 'c': 1 / 50, 'k': 0.0, 'dx': 0.0, 'dy': 0.0, 'nr': 45.0}]
+    pos = [{'P': [0.0, 0.0, 10.0], 'R': None}, {'P': [1.5, -2.0, 12.0], 'R': [0, 5, 3]}]
+    Zs = [1e3, 1e7] if tier == 'quick' else [1e3, 1e5, 1e7, 1e9]
+    return [{'surf': sdesc(s_, p_, t), 'n0': t['n0'], 'Z0': Z0, 'zdir': zd}
+            for s_ in shp for p_ in pos for t in TYPES[:3] for Z0 in Zs for zd in (1, -1)]
+
+
+# -- media bookkeeping: surfaces that carry an index function without being refracting -------------------
+
+def media_pool():
+    return [
+        {'shape': {'kind': 'sphere', 'c': -1 / 80}, 'P': 60.0, 'R': None, 'typ': 'refl', 'n': 1.7},                      # mirror with its substrate index
+        {'shape': {'kind': 'plane'}, 'P': [0.0, 0.0, 5.0], 'R': [10, 0, 0], 'typ': 'eval', 'n': 1.6},                     # dummy plane carrying a glass
+        {'shape': {'kind': 'conic', 'c': -1 / 100, 'k': -1.0}, 'P': [0.0, 0.0, 50.0], 'R': None, 'typ': 'refl', 'n': None},
+        {'shape': {'kind': 'conic', 'c': 1 / 200, 'k': 0.0}, 'P': [1.5, -2.0, 8.0], 'R': None, 'typ': 'eval', 'n': None},
+        {'shape': {'kind': 'sphere', 'c': 1 / 50}, 'P': [0.0, 0.0, 10.0], 'R': None, 'typ': 'refr', 'n': 1.5},
+        {'shape': {'kind': 'conic', 'c': -1 / 50, 'k': -0.6}, 'P': [0.0, 0.0, 14.0], 'R': [0, 5, 3], 'typ': 'refr', 'n': 1.0},
+    ]
+
+
+def run_media(case, seed, R):
+    pl = media_pool()
+    geos = [Geo(pl[i], seed) for i in case['seq']]
+    P0, S0 = bundle(case['tier'])
+    tally = new_tally()
+    trace_and_judge(R, geos, P0, S0, case['n0'], tally, form='batch')
+    report_tally(R, tally)
+    carried = any(pl[i]['typ'] != 'refr' and pl[i]['n'] is not None for i in case['seq'][:-1]) and pl[case['seq'][-1]]['typ'] == 'refr'
+    R.outcome('index-carrier-then-refractor' if carried else f'len{len(geos)}')
+
+
+# -- forms of the position argument; the running-vertex idiom ----------------------------------------------
+
+P_FORMS = ['scalar', 'list', 'tuple', 'two-list', 'two-f64', 'f64', 'f64-fresh', 'f32', 'i64']
+
+
+def prescriptions():
+    """(shape, typ, index after / carried, thickness to the next vertex); integer-valued so that every form can express them."""
+    return [
+        [({'kind': 'conic', 'c': 1 / 51, 'k': 0.0}, 'refr', 1.5, 6), ({'kind': 'conic', 'c': -1 / 62, 'k': 0.0}, 'refr', 1.0, 40),
+         ({'kind': 'plane'}, 'eval', None, 7)],
+        [({'kind': 'sphere', 'c': 1 / 50}, 'refr', 1.5, 30), ({'kind': 'conic', 'c': -1 / 80, 'k': -1.0}, 'refl', None, -25),
+         ({'kind': 'plane'}, 'refr', 1.0, 3)],
+    ]
+
+
+def run_pforms(case, seed, R):
+    """Surfaces built one after the other from ONE running vertex position, handed over in the given form and advanced in
+    place by each thickness (as lens tables are walked): every surface must stay where it was built."""
+    form = case['form']
+    pres = prescriptions()[case['pres']]
+    x, y = case['xy']
+    z = 12
+    arr = {'f64': np.array([x, y, z], dtype=np.float64), 'f32': np.array([x, y, z], dtype=np.float32),
+           'i64': np.array([x, y, z], dtype=np.int64), 'two-f64': np.array([y, z], dtype=np.float64)}.get(form)
+    geos, surfs = [], []
+    for shape, typ, n, thick in pres:
+        if form == 'scalar':
+            arg = float(z)
+        elif form == 'list':
+            arg = [float(x), float(y), float(z)]
+        elif form == 'tuple':
+            arg = (float(x), float(y), float(z))
+        elif form == 'two-list':
+            arg = [float(y), float(z)]
+        elif form == 'f64-fresh':
+            arg = np.array([x, y, z], dtype=np.float64)
+        else:
+            arg = arr                                    # the SAME ndarray object for every surface
+        g = Geo({'shape': shape, 'P': [float(x), float(y), float(z)], 'R': None, 'typ': typ, 'n': n}, seed)
+        sf = g.build(R, P_arg=arg)
+        if sf is FAILED:
+            return
+        geos.append(g)
+        surfs.append(sf)
+        z += thick
+        if arr is not None:
+            arr[-1] += thick                             # advance the running vertex in place
+    if arr is not None:
+        for i, sf in enumerate(surfs):
+            Pi = getattr(sf, 'P', None)
+            R.expect(not (isinstance(Pi, np.ndarray) and np.shares_memory(Pi, arr)), f'Surface:P:aliases-argument:{form}',
+                     f'surface {i}: Surface.P shares memory with the position array it was constructed from')
+    P0, S0 = bundle('quick')
+    tally = new_tally()
+    # check_surface_object (inside) compares every Surface.P with the position at ITS construction time
+    trace_and_judge(R, geos, P0, S0, 1.0, tally, form='batch', prebuilt=surfs)
+    for g, sf in zip(geos, surfs):
+        check_surface_object(R, g, sf)                   # and the trace did not move them either
+    report_tally(R, tally)
+    R.outcome(form)
+
+
+def pform_cases():
+    out = []
+    for pres in range(len(prescriptions())):
+        for form in P_FORMS:
+            for xy in ([0, 0], [2, -3]):
+                if form == 'scalar' and xy != [0, 0]:
+                    continue
+                if form.startswith('two') and xy[0] != 0:
+                    xy = [0, xy[1]]
+                c = {'form': form, 'pres': pres, 'xy': xy}
+                if c not in out:
+                    out.append(c)
+    return out
+
+
 def ref_census(cases, tier):
     """Reference-only census of the rays of unit ``single`` (closed-form shapes): how many are judged / excluded and why."""
     P0, S0 = bundle(tier)
@@ -1003,6 +1135,20 @@ def plan(tier, seed):
                   f'{21 if tier == "quick" else 31}^2 lattice scaled to 0.7 R (includes the axis) x the four directions, bundles travelling +z AND -z, x 2 poses (untilted, tilted+decentred) x '
                   '{reflect, refract (1,1.5), (1.5,1)}; plus six two-surface prescriptions over a pool of four large posed surfaces (mirror -> refractor met travelling -z, refractor -> mirror) '
                   'with both bundles; same hop oracle, misses excluded by the reference; outcome labels path<-128 / path>+128 count the rays whose reference path length is that long', reset=rs_),
+        ScopeUnit('far', far_cases(tier), run_far,
+                  'ray origins far from the surface: the 100-ray bundle launched |Z0| in {1e3, 1e7} (thorough: also 1e5, 1e9) before and after the local z=0 plane (both directions of '
+                  'travel) x 7 shapes (plane, spheres, parabola, ellipsoid, off-axis parabola, Q-type) x 2 poses x {reflect, refract (1,1.5), (1.5,1)}; the height above the surface '
+                  'is judged at the scale of the local hit point (5e-11), independent of |Z0|; only the lateral position / ray parameter tolerances grow with ulp(|Z0|)', reset=rs_),
+        ScopeUnit('media', [{'seq': list(t), 'n0': n0, 'tier': tier} for L_ in range(1, (2 if tier == 'quick' else 3) + 1)
+                            for t in itertools.product(range(6), repeat=L_) for n0 in (1.0, 1.3)], run_media,
+                  f'ALL sequences of length <= {2 if tier == "quick" else 3} over a pool of 6 surfaces: a mirror carrying an index function (n=1.7), an eval plane carrying one (n=1.6), a mirror and '
+                  'an eval surface with n=None, two refractors; n_ambient in {1, 1.3}; the reference changes the medium at refracting surfaces only, eval surfaces must not bend rays; '
+                  'outcome index-carrier-then-refractor marks the cases where a non-refracting surface with an index precedes a final refractor', reset=rs_),
+        ScopeUnit('pforms', pform_cases(), run_pforms,
+                  'forms of the position argument {scalar, list, tuple, 2-element list, 2-element float64 ndarray, float64 ndarray, fresh float64 ndarray per surface, float32 ndarray, '
+                  'int64 ndarray} x decentre {(0,0),(2,-3)} x 2 three-surface prescriptions (singlet + eval image plane; refractor, mirror with negative thickness, refracting plane): the '
+                  'surfaces are built from ONE running vertex position that is advanced IN PLACE by each thickness (the same ndarray object is handed to every constructor); every '
+                  'Surface.P must equal the position at its construction time, must not share memory with the argument, and the 100-ray trace is judged hop by hop against those positions', reset=rs_),
         ScopeUnit('seq', seq, run_seq,
                   f'ALL sequences of length <= {L} over a pool of 5 posed surfaces (refracting sphere, tilted refracting conic back to n=1, tilted decentred refracting plane, '
                   f'parabolic mirror, tilted off-axis parabolic mirror) with n_ambient=1, plus all length-2 sequences with n_ambient=1.5; the {nd * nl * nl}-ray bundle; every hop judged '
